@@ -196,6 +196,15 @@ def run(ctx):
         for x in mm:
             ctx.violation("C15:controls:%s" % x["what"], "tau=%s ctl=%s: %s" % (job["variant"]["start"], job["case"]["ctl"], x),
                           {"c": job})
+    # ... and the same schedules through compute_dynamics_with_field (the mean-field driver resolves float control times
+    # against its own start time)
+    fjobs = [{"case": j["case"], "api": "cdf", "seed": ctx.seed, "start": j["variant"]["start"]}
+             for i, j in enumerate(cjobs) if j["case"]["ctl"] and i % 3 == 0]
+    for job, mm in zip(fjobs, core.pmap(c18.run_api, fjobs, chunksize=8)):
+        ctx.case({"part": "c", "api": "compute_dynamics_with_field", "ctl": job["case"]["ctl"], "tau": job["start"]}, nontrivial=True)
+        for x in mm:
+            ctx.violation("C15:controls:with_field:%s" % x["what"], "tau=%s ctl=%s: %s" % (job["start"], job["case"]["ctl"], x),
+                          {"cf": job})
     # (d) float correlation times + tau
     base_r = ctx.tlc("PTContract", c07.PTC_CFG, label="correlation values", workers=4,
                      constants={"D": "4", "EDims": "<<4>>", "A0": "<<1>>", "N": "3", "M": "8",
@@ -241,6 +250,8 @@ def replay(ctx, rep):
         mm = mf_job(tuple(c["b"]))
     elif "c" in c:
         mm = eng.run_case(c["c"])
+    elif "cf" in c:
+        mm = c18.run_api(c["cf"])
     elif "e" in c:
         mm = estimate_job(tuple(c["e"]))
     else:
